@@ -98,6 +98,8 @@ def main():
                     if extra:
                         e["extra"] = {"zz": 1.0}; e["extra_at"] = rng.choice([0, 0, 1, 9])
                     evs.append(e)
+            if not headless and rng.random() < 0.06:
+                o["out_field"] = True
             dt.append(case([o], evs, kind=kind, skip=["evaluate.viol", "update.viol"]))
         else:
             end = rng.choice([1, 2, 4, 6])
@@ -121,6 +123,13 @@ def main():
                 if extra:
                     e["extra"] = {"zz": [[0, 1.0], [end, 2.0]]}; e["extra_at"] = rng.choice([0, 0, 1, 9])
                 evs.append(e)
+            if not headless and rng.random() < 0.06:
+                o["out_field"] = True
+                if kind != "ct_off" and len(vs) >= 1:
+                    # two updates (the signals cut in two) - the output object must survive the first one
+                    import c05 as _c05x
+                    sc_ = {v: [(0, 1), (1, len(w[v]))] if len(w[v]) > 1 else [(0, 1)] for v in w}
+                    evs = [e_ for e_ in evs if e_["a"] != "update"] + _c05x.schedule_events(w, sc_, 1)
             ct.append(case([o], evs, kind=kind))
     # dense-time online, several update() calls, every arithmetic operator with a constant on either side (a constant delivers
     # its signal once, so from the second update on that operand's batch is empty) and between two signals fed by lagging batches
